@@ -2,10 +2,28 @@
   BB.Props.C17 — the command line writes exactly the assembled program, or nothing on failure.
 
   Model: BB.Cli (`plan` = steps 1-4 of cli_main: input check, -i directories, --hex-offset parse,
-  assemble; `writeOutputs` = steps 5-7: labels file, binary, Intel HEX through `hexEncode`).
-  `intelhex.bin2hex` is a parameter; what is assumed of it is stated as the hypothesis `HexOk`
-  (for offsets Intel HEX can hold it writes a file that the specification decoder `Hex.decode`
-  reads back as the bytes at that offset) — never as an axiom.
+  assemble; `writeOutputs` = steps 5-7: labels file, binary, Intel HEX through `hexEncode`, in that
+  order, each write final).  `intelhex.bin2hex` is a parameter; what is assumed of it is stated as the
+  hypothesis `HexOk` (for offsets Intel HEX can hold it writes a file that the specification decoder
+  `Hex.decode` reads back as the bytes at that offset) — never as an axiom.
+
+  SCOPE of the failure clause.  "Nothing on failure" is claimed for the failures raised by the
+  passes of the assembler and by the option checks (steps 1-4b) — every one of them happens before
+  the first `open(…, 'w')` — NOT for a write the operating system refuses (`ExitStatus.osError`):
+  cli_main writes the -l file, then the -o file, then the .hex file, and an OSError at a later write
+  leaves the earlier files written (`os_failure_after_labels_written`: `-l l.txt -o /nodir/out.bin`
+  exits 1 with l.txt overwritten; `os_failure_prefix` says exactly what such a run has written).
+  The theorems `cli_failure_untouched*` therefore carry the hypothesis `¬ status.osFailure`, and
+  `CliFailureUntouched` without it is refuted (`not_cliFailureUntouched`).
+
+  BYTES.  The model's bytes are natural numbers and nothing in `FS` bounds them: `include_bytes`
+  copies the bytes of a file into the output, so `r.bytes` contains values ≥ 256 exactly when an
+  included binary file of the MODEL filesystem does (audit/front/A5_c17.lean).  `HexOk` can only
+  speak about lists of bytes (< 256), so `cli_failure_untouched'`, `cli_failure_untouched_range` and
+  `cli_success_hex_decodes` ask the caller for `∀ b ∈ r.bytes, b < 256` (`hbytes` / `hb` /
+  `OffsetInRange`).  For a filesystem that came from real files (every content a list of values
+  < 256) the hypothesis holds — encoders, packs, strings and sequences produce bytes — but that
+  is not proved here; the caller supplies it for the run at hand (by evaluation, as the examples do).
 -/
 import BB.Cli
 import BB.Lemmas.HexRound
@@ -51,10 +69,11 @@ theorem plan_error_untouched (henc : HexEnc) (fs : FS) (cwd : String) (a : Args)
   unfold run; rw [h]
 
 theorem writeOutputs_failed (henc : HexEnc) (fs : FS) (cwd : String) (a : Args) (offset : Option Int)
-    (r : AsmResult) (h : (writeOutputs henc fs cwd a offset r).1.failed) :
+    (r : AsmResult) (h : (writeOutputs henc fs cwd a offset r).1.failed)
+    (hos : ¬ (writeOutputs henc fs cwd a offset r).1.osFailure) :
     (writeOutputs henc fs cwd a offset r).2 = fs ∨
       ∃ off part, offset = some off ∧ henc off r.bytes = .error part := by
-  generalize hres : writeOutputs henc fs cwd a offset r = res at h ⊢
+  generalize hres : writeOutputs henc fs cwd a offset r = res at h hos ⊢
   unfold writeOutputs at hres
   dsimp only at hres
   repeat' split at hres
@@ -62,33 +81,59 @@ theorem writeOutputs_failed (henc : HexEnc) (fs : FS) (cwd : String) (a : Args) 
   all_goals first
     | (left; rfl)
     | (exfalso; simp [ExitStatus.failed] at h; done)
+    | (exfalso; simp [ExitStatus.osFailure] at hos; done)
     | (right; exact ⟨_, _, rfl, by assumption⟩)
 
-/-- the only way a failing run can have changed the filesystem is `bin2hex` raising in step 7 -/
+/-- a failing run that is not an operating-system write failure can have changed the filesystem in
+    one way only: `bin2hex` raising in step 7 -/
 theorem cli_failure_untouched_hex (henc : HexEnc) (fs : FS) (cwd : String) (a : Args)
-    (h : (run henc fs cwd a).1.failed) :
+    (h : (run henc fs cwd a).1.failed) (hos : ¬ (run henc fs cwd a).1.osFailure) :
     (run henc fs cwd a).2 = fs ∨
       ∃ off r part, plan fs cwd a = .ok (some off, r) ∧ henc off r.bytes = .error part := by
-  unfold run at h ⊢
+  unfold run at h hos ⊢
   cases hp : plan fs cwd a with
   | error e => left; rfl
   | ok res =>
     obtain ⟨offset, r⟩ := res
-    rw [hp] at h
-    simp only at h ⊢
-    rcases writeOutputs_failed henc fs cwd a offset r h with h' | ⟨off, part, ho, he⟩
+    rw [hp] at h hos
+    simp only at h hos ⊢
+    rcases writeOutputs_failed henc fs cwd a offset r h hos with h' | ⟨off, part, ho, he⟩
     · left; exact h'
     · right; subst ho; exact ⟨off, r, part, rfl, he⟩
 
-/-- C17, failure clause: exit status non-zero ⇒ the filesystem is unchanged, provided `bin2hex`
-    does not raise on the call this run makes (see `HexOk` / `cli_failure_untouched'` for when that
-    is guaranteed) -/
+/-- C17, failure clause: exit status non-zero, NOT because the operating system refused a write
+    (`hos`; see the file header and `os_failure_after_labels_written`) ⇒ the filesystem is unchanged,
+    provided `bin2hex` does not raise on the call this run makes (see `HexOk` /
+    `cli_failure_untouched'` for when that is guaranteed).  Every failure of the assembler's passes
+    and of the option checks is covered: they all end the run in `plan` (`plan_error_untouched`,
+    `assembler_failure_untouched`). -/
 theorem cli_failure_untouched (henc : HexEnc) (fs : FS) (cwd : String) (a : Args)
     (hh : ∀ off r part, plan fs cwd a = .ok (some off, r) → henc off r.bytes ≠ .error part)
-    (h : (run henc fs cwd a).1.failed) : (run henc fs cwd a).2 = fs := by
-  rcases cli_failure_untouched_hex henc fs cwd a h with h | ⟨off, r, part, hp, he⟩
+    (h : (run henc fs cwd a).1.failed) (hos : ¬ (run henc fs cwd a).1.osFailure) :
+    (run henc fs cwd a).2 = fs := by
+  rcases cli_failure_untouched_hex henc fs cwd a h hos with h | ⟨off, r, part, hp, he⟩
   · exact h
   · exact absurd he (hh off r part hp)
+
+/-- the property's own quantifier, "failures raised from every pass of the assembler": whenever
+    `assemble()` fails (AssemblerError or an escaping exception; any pass, either mode) on a run that
+    reaches it, the exit status is 1 and no file is touched — unconditionally (no assumption on
+    bin2hex, no OS proviso: nothing has been opened for writing yet) -/
+theorem assembler_failure_untouched (henc : HexEnc) (fs : FS) (cwd : String) (a : Args) (inp : String)
+    (dirs : List String) (off : Option Int) (e : Err)
+    (hcwd : normAbs cwd = true) (hinp : absPath cwd a.input = some inp) (hex : fs.exists inp = true)
+    (hnd : fs.isDir inp = false) (hdirs : absDirs fs cwd a.includeDirs = .ok dirs)
+    (hoff : parseOffset a.hexOffset = .ok off)
+    (hasm : assembleText fs cwd (dirs ++ a.definitionsDir.toList) a.compress (.path inp) = .error e)
+    (hsup : ∀ w, e ≠ .unsupported w) :
+    run henc fs cwd a = (.code 1, fs) := by
+  have hp : plan fs cwd a = .error (.code 1) := by
+    unfold plan
+    cases e with
+    | unsupported w => exact absurd rfl (hsup w)
+    | asm l => simp [hcwd, hinp, hex, hnd, hdirs, hoff, hasm]
+    | internal s => simp [hcwd, hinp, hex, hnd, hdirs, hoff, hasm]
+  exact plan_error_untouched henc fs cwd a _ hp
 
 /-- what is assumed of `intelhex.bin2hex`: for an offset Intel HEX can hold it does not raise,
     and the file it writes decodes, under the specification decoder, to the bytes at that offset -/
@@ -102,15 +147,18 @@ def OffsetInRange (fs : FS) (cwd : String) (a : Args) : Prop :=
     (∀ b ∈ r.bytes, b < 256) ∧ 0 ≤ off ∧ off + r.bytes.length ≤ 4294967296
 
 theorem cli_failure_untouched' (henc : HexEnc) (hok : HexOk henc) (fs : FS) (cwd : String) (a : Args)
-    (hr : OffsetInRange fs cwd a) (h : (run henc fs cwd a).1.failed) : (run henc fs cwd a).2 = fs := by
-  apply cli_failure_untouched henc fs cwd a _ h
+    (hr : OffsetInRange fs cwd a) (h : (run henc fs cwd a).1.failed)
+    (hos : ¬ (run henc fs cwd a).1.osFailure) : (run henc fs cwd a).2 = fs := by
+  apply cli_failure_untouched henc fs cwd a _ h hos
   intro off r part hp he
   obtain ⟨hb, h0, h1⟩ := hr off r hp
   obtain ⟨hx, hx1, _⟩ := hok off r.bytes hb h0 h1
   rw [hx1] at he
   cases he
 
-/-- the full statement without the side condition on the offset … -/
+/-- the statement without any side condition: EVERY run with a non-zero exit status leaves the
+    filesystem unchanged.  It is FALSE, whatever bin2hex does (`not_cliFailureUntouched`): a write
+    the operating system refuses ends the run after the earlier writes. -/
 def CliFailureUntouched (henc : HexEnc) : Prop :=
   ∀ fs cwd a, (run henc fs cwd a).1.failed → (run henc fs cwd a).2 = fs
 
@@ -518,13 +566,18 @@ theorem out_of_range_offset_exits (henc : HexEnc) (fs : FS) (cwd : String) (a : 
     simp [hcwd, hinp, hex, hnd, hdirs, hoff, hasm, hfit]
   exact plan_error_untouched henc fs cwd a _ hp
 
-/-- **C17, failure clause, with no side condition on the offset**: whenever the exit status is not 0
-    the filesystem is unchanged — under the stated assumption on bin2hex (`HexOk`: it does not raise
-    for images Intel HEX can hold) and for outputs that are byte strings -/
+/-- **C17, failure clause, with no side condition on the offset**: whenever the exit status is not 0,
+    and not because the operating system refused a write (`hos`), the filesystem is unchanged — under
+    the stated assumption on bin2hex (`HexOk`: it does not raise for images Intel HEX can hold).
+    `hbytes` is the caller's: the assembled output of THIS run, if steps 1-4 succeed, consists of
+    bytes (< 256).  It is needed because `HexOk` speaks about byte lists only while the model's
+    filesystem may hold larger numbers, which `include_bytes` would copy into the output (file
+    header, BYTES); it holds for every filesystem whose file contents are bytes. -/
 theorem cli_failure_untouched_range (henc : HexEnc) (hok : HexOk henc) (fs : FS) (cwd : String) (a : Args)
     (hbytes : ∀ off r, plan fs cwd a = .ok (off, r) → ∀ b ∈ r.bytes, b < 256)
-    (h : (run henc fs cwd a).1.failed) : (run henc fs cwd a).2 = fs := by
-  apply cli_failure_untouched' henc hok fs cwd a _ h
+    (h : (run henc fs cwd a).1.failed) (hos : ¬ (run henc fs cwd a).1.osFailure) :
+    (run henc fs cwd a).2 = fs := by
+  apply cli_failure_untouched' henc hok fs cwd a _ h hos
   intro off r hp
   obtain ⟨h0, h1⟩ := plan_offset_in_range fs cwd a off r hp
   exact ⟨hbytes _ _ hp, h0, h1⟩
@@ -535,5 +588,189 @@ example (henc : HexEnc) : run henc exFS "/w" (exArgs (some "0x100000001")) = (.c
   out_of_range_offset_exits henc exFS "/w" _ "/w/m.asm" [] 4294967297 ⟨[], [], []⟩ ex_abs_w
     (by simp [absPath, exArgs, ex_abs_main]) (by decide) (by decide) (by rfl) (by decide)
     (by simpa [exArgs] using ex_assembles) (by right; decide)
+
+/-! ### writes the operating system refuses: what stays written -/
+
+/-- the filesystem after step 5 (the -l file written, if one was requested) -/
+def labelsWritten (fs : FS) (cwd : String) (a : Args) (r : AsmResult) : FS :=
+  match wantLabels a with
+  | none => fs
+  | some l =>
+    match absPath cwd l, labelText r.labels with
+    | some lp, some t => FS.write fs lp (textBytes t)
+    | _, _ => fs
+
+/-- step 5 on its own (the first `let` of `writeOutputs`) -/
+def labelsStep (fs : FS) (cwd : String) (a : Args) (r : AsmResult) : Except ExitStatus FS :=
+  match a.labels with
+  | none => .ok fs
+  | some l =>
+    if l = "" then .ok fs else
+    match absPath cwd l, labelText r.labels with
+    | some lp, some t => if FS.canWrite fs lp then .ok (FS.write fs lp (textBytes t)) else .error (.osError 1 "labels file")
+    | none, _ => .error (.unsupported "labels path form")
+    | _, none => .error (.unsupported "negative label value")
+
+theorem labelsStep_ok (fs : FS) (cwd : String) (a : Args) (r : AsmResult) (fs1 : FS)
+    (h : labelsStep fs cwd a r = .ok fs1) : fs1 = labelsWritten fs cwd a r := by
+  unfold labelsStep at h
+  repeat' split at h
+  all_goals first
+    | (cases h; done)
+    | (cases h; simp_all [labelsWritten, wantLabels]; done)
+
+theorem labelsStep_error (fs : FS) (cwd : String) (a : Args) (r : AsmResult) (e : ExitStatus)
+    (h : labelsStep fs cwd a r = .error e) : e = .osError 1 "labels file" ∨ ∃ w, e = .unsupported w := by
+  unfold labelsStep at h
+  repeat' split at h
+  all_goals first
+    | (cases h; done)
+    | (cases h; left; rfl)
+    | (cases h; right; exact ⟨_, rfl⟩)
+
+/-- steps 1-4 end a run with an ordinary exit status (or outside the model), never `osError` -/
+theorem plan_error_not_os (fs : FS) (cwd : String) (a : Args) (e : ExitStatus)
+    (h : plan fs cwd a = .error e) : ¬ e.osFailure := by
+  have hd : ∀ l e, absDirs fs cwd l = .error e → ¬ e.osFailure := by
+    intro l
+    induction l with
+    | nil => intro e hd; simp [absDirs] at hd
+    | cons d rest ih =>
+      intro e hd
+      unfold absDirs at hd
+      repeat' split at hd
+      all_goals first
+        | (cases hd; done)
+        | (cases hd; simp [ExitStatus.osFailure]; done)
+        | (cases hd; exact ih _ (by assumption))
+  have ho : ∀ o e, parseOffset o = .error e → ¬ e.osFailure := by
+    intro o e hq
+    unfold parseOffset at hq
+    repeat' split at hq
+    all_goals first
+      | (cases hq; done)
+      | (cases hq; simp [ExitStatus.osFailure])
+  unfold plan at h
+  dsimp only at h
+  repeat' split at h
+  all_goals first
+    | (cases h; done)
+    | (cases h; simp [ExitStatus.osFailure]; done)
+    | (cases h; exact hd _ _ (by assumption))
+    | (cases h; exact ho _ _ (by assumption))
+
+/-- **What a run that ends in an OS write failure has written**: steps 1-4 succeeded with a program
+    `r`, and the files written are a prefix of (labels file, binary) with their final contents:
+    * the -l file could not be opened: exit status 1, nothing written;
+    * the -o file could not be opened: exit status 1, the -l file (if requested) WRITTEN;
+    * the .hex file could not be opened (inside bin2hex, which swallows the error): exit status 0,
+      the -l file and the binary written, no .hex file. -/
+theorem os_failure_prefix (henc : HexEnc) (fs : FS) (cwd : String) (a : Args) (n : Nat) (w : String) (fs' : FS)
+    (h : run henc fs cwd a = (.osError n w, fs')) :
+    ∃ off r, plan fs cwd a = .ok (off, r) ∧
+      ((n = 1 ∧ w = "labels file" ∧ fs' = fs) ∨
+       (n = 1 ∧ w = "output file" ∧ fs' = labelsWritten fs cwd a r) ∨
+       (n = 0 ∧ w = "hex file" ∧ ∃ op, absPath cwd a.output = some op ∧
+          fs' = FS.write (labelsWritten fs cwd a r) op r.bytes)) := by
+  unfold run at h
+  cases hp : plan fs cwd a with
+  | error e =>
+    rw [hp] at h
+    simp only [Prod.mk.injEq] at h
+    exact absurd (by rw [h.1]; trivial) (plan_error_not_os fs cwd a e hp)
+  | ok res =>
+    obtain ⟨off, r⟩ := res
+    refine ⟨off, r, rfl, ?_⟩
+    rw [hp] at h
+    simp only at h
+    unfold writeOutputs at h
+    dsimp only at h
+    split at h
+    · rename_i e hstep
+      simp only [Prod.mk.injEq] at h
+      obtain ⟨h1, h2⟩ := h
+      subst h1 h2
+      rcases labelsStep_error fs cwd a r _ hstep with he | ⟨w', he⟩
+      · cases he; left; exact ⟨rfl, rfl, rfl⟩
+      · cases he
+    · rename_i fs1 hstep
+      have hfs1 := labelsStep_ok fs cwd a r fs1 hstep
+      subst hfs1
+      repeat' split at h
+      all_goals simp only [Prod.mk.injEq, ExitStatus.osError.injEq, reduceCtorEq, false_and] at h
+      all_goals obtain ⟨⟨h1, h2⟩, h3⟩ := h
+      all_goals subst h1 h2 h3
+      · right; left; exact ⟨rfl, rfl, rfl⟩
+      · right; right; exact ⟨rfl, rfl, _, by assumption, rfl⟩
+
+/-- /w/m.asm = `start:` / `nop`; /w/l.txt holds older contents; /w/nodir does not exist -/
+def osFS : FS :=
+  { files := [("/w/m.asm", "start:\nnop\n".toList.map Char.toNat), ("/w/l.txt", [4])],
+    dirs := ["/", "/w"] }
+
+/-- `bronzebeard /w/m.asm -l /w/l.txt -o /w/nodir/out.bin` -/
+def osArgs : Args := { input := "/w/m.asm", output := "/w/nodir/out.bin", labels := some "/w/l.txt" }
+
+theorem os_assembles :
+    assembleText osFS "/w" [] false (.path "/w/m.asm") = .ok ⟨[0x13, 0, 0, 0], [("start", 0)], []⟩ := by
+  unfold assembleText frontEnd
+  have hm : absOk "/w/m.asm" = true := by decide
+  have hr : osFS.readAt "/w/m.asm" = some ("start:\nnop\n".toList.map Char.toNat) := by decide
+  have ht : bytesToText ("start:\nnop\n".toList.map Char.toNat) = some "start:\nnop\n".toList := by decide
+  have hs : splitLines "start:\nnop\n".toList = ["start:".toList, "nop".toList] := by decide
+  simp only [hm, ex_abs_w, List.all_nil, hr, ht, readLinesAux.eq_2, hs]
+  simp only [readLinesAux.go.eq_2, readLinesAux.go.eq_1]
+  decide +kernel
+
+theorem os_abs_out : normAbs "/w/nodir/out.bin" = true := by
+  have h : ("/w/nodir/out.bin".splitOn "/") = ["", "w", "nodir", "out.bin"] := by
+    simp [String.splitOn]
+    repeat (rw [String.splitOnAux.eq_1]; simp (decide := true))
+  unfold normAbs; simp only [h]; decide
+
+theorem os_plan : plan osFS "/w" osArgs = .ok (none, ⟨[0x13, 0, 0, 0], [("start", 0)], []⟩) :=
+  plan_ok_of osFS "/w" _ "/w/m.asm" [] none _ ex_abs_w
+    (by simp [absPath, osArgs, ex_abs_main]) (by decide) (by decide) (by rfl) (by decide)
+    (by simpa [osArgs] using os_assembles) (by decide)
+
+/-- **The counterexample to "every failing run leaves the filesystem unchanged"** (review finding
+    C17, reproduced on /repo): the program assembles, the -l file is written, then `open` of the -o
+    path fails because its directory does not exist — exit status 1 (an uncaught
+    FileNotFoundError), and /w/l.txt now holds `start 0x00000000` instead of its old contents.
+    Whatever bin2hex does (no .hex file is requested). -/
+theorem os_failure_after_labels_written (henc : HexEnc) :
+    run henc osFS "/w" osArgs =
+      (.osError 1 "output file", FS.write osFS "/w/l.txt" (textBytes "start 0x00000000\n".toList)) ∧
+    (run henc osFS "/w" osArgs).1.failed ∧ (run henc osFS "/w" osArgs).1.osFailure ∧
+    osFS.readBytes "/w/l.txt" = some [4] ∧
+    (run henc osFS "/w" osArgs).2.readBytes "/w/l.txt" = some (textBytes "start 0x00000000\n".toList) ∧
+    (run henc osFS "/w" osArgs).2 ≠ osFS := by
+  have hlabp : absPath "/w" "/w/l.txt" = some "/w/l.txt" := by simp [absPath, ex_abs_lab]
+  have hout : absPath "/w" "/w/nodir/out.bin" = some "/w/nodir/out.bin" := by simp [absPath, os_abs_out]
+  have hlt : labelText [("start", 0)] = some "start 0x00000000\n".toList := by decide
+  have hcl : FS.canWrite osFS "/w/l.txt" = true := by
+    simp only [FS.canWrite, ex_dirname_lab]; decide
+  have hdo : pathDirname "/w/nodir/out.bin" = "/w/nodir" := by decide
+  have hco : FS.canWrite (FS.write osFS "/w/l.txt" (textBytes "start 0x00000000\n".toList)) "/w/nodir/out.bin" = false := by
+    rw [canWrite_write]; simp only [FS.canWrite, hdo]; decide
+  have hrun : run henc osFS "/w" osArgs =
+      (.osError 1 "output file", FS.write osFS "/w/l.txt" (textBytes "start 0x00000000\n".toList)) := by
+    unfold run
+    rw [os_plan]
+    have hne : ¬ ("/w/l.txt" = "") := by decide
+    simp only [writeOutputs, osArgs, if_neg hne, hlabp, hlt, hcl, if_true, hout, hco, Bool.not_false]
+  rw [hrun]
+  refine ⟨rfl, by simp [ExitStatus.failed], trivial, by decide, read_write_same _ _ _, ?_⟩
+  intro h
+  have := congrArg (fun f => FS.readBytes f "/w/l.txt") h
+  simp only [read_write_same] at this
+  revert this
+  decide +kernel
+
+/-- … so the unrestricted statement is false for every bin2hex -/
+theorem not_cliFailureUntouched (henc : HexEnc) : ¬ CliFailureUntouched henc := by
+  intro h
+  obtain ⟨_, h2, _, _, _, h6⟩ := os_failure_after_labels_written henc
+  exact h6 (h osFS "/w" osArgs h2)
 
 end BB.Props.C17
